@@ -52,6 +52,7 @@ type RefUse struct {
 	Spelling  string `json:"spelling"`        // plain, dot, dotdot, abs, fileurl, noext, symlink, fragment
 	LocalOnly bool   `json:"local,omitempty"` // same-file fragment ref
 	Combo     string `json:"combo,omitempty"` // "allOf"/"anyOf": the ref is a branch next to a branch holding the cb_ marker
+	CB        string `json:"cb,omitempty"`    // name of that cb_ marker property
 }
 
 type Link struct {
@@ -422,8 +423,15 @@ func genWorld(t *rapid.T, maxFiles int, recCombo, http, shadows bool) *World {
 			f.CRLF = true
 		}
 		f.Base = f.Tag + "f" + ext
+		if feat.NoExt && rapid.IntRange(0, 2).Draw(t, "dottedstem") == 0 {
+			// a dot in the stem (address-1.0.json, types.v2.yaml): "t0f.v1" is not a name with extension ".v1"
+			f.Base = f.Tag + "f.v1" + ext
+		}
 		if feat.IDs || npkg > 1 {
 			f.ID = "https://example.com/" + f.Tag
+			if rapid.IntRange(0, 7).Draw(t, "idhash") == 0 {
+				f.ID += "#" // draft-04 style id with an empty fragment; mapping keys repeat it verbatim
+			}
 		}
 		if npkg > 1 {
 			f.Pkg = rapid.IntRange(0, npkg-1).Draw(t, "pkg")
@@ -661,8 +669,15 @@ func drawOptions(t *rapid.T, w *World, npkg int) Options {
 				continue
 			}
 			suf := rapid.SampledFrom([]string{"#", "/"}).Draw(t, "decoysuffix")
-			o.SchemaPkg = append(o.SchemaPkg, Pair{f.ID + suf, "example.com/m/decoy"})
-			o.SchemaOut = append(o.SchemaOut, Pair{f.ID + suf, "out/decoy/gen.go"})
+			key := f.ID + suf
+			if strings.HasSuffix(f.ID, "#") {
+				key = strings.TrimSuffix(f.ID, "#") + "/"
+				if suf == "#" {
+					key = strings.TrimSuffix(f.ID, "#")
+				}
+			}
+			o.SchemaPkg = append(o.SchemaPkg, Pair{key, "example.com/m/decoy"})
+			o.SchemaOut = append(o.SchemaOut, Pair{key, "out/decoy/gen.go"})
 		}
 	}
 	return o
@@ -719,6 +734,21 @@ func (g *genCtx) genDoc() {
 		defs = append(defs, KV{d, g.genMarkerObject("mk_"+f.Tag+"_"+d, d)})
 	}
 	g.curDef = -1
+	// a NAMED list type: a definition of type array whose items are a reference (possibly into another file and
+	// package: `type T0Ls []other.T1Da`), used by a root property - the only mention of the other package may sit here
+	listDef := ""
+	if g.feat.Array && !isSpecial(f) && f.RootObj && g.pct("listdef", 30) {
+		name := strings.ToUpper(f.Tag[:1]) + f.Tag[1:] + "Ls"
+		g.curDef = len(f.Defs)
+		if ru, ok := g.drawRef(name); ok {
+			ru.Prop = "items"
+			ru.ViaArray = true
+			defs = append(defs, KV{name, Obj{{"type", "array"}, {"items", Obj{{"$ref", ru.Ref}}}}})
+			f.Refs = append(f.Refs, ru)
+			listDef = name
+		}
+		g.curDef = -1
+	}
 	// a few non-object definitions (enum / primitive / array), referable locally
 	nx := 0
 	if g.feat.LocalRef {
@@ -760,7 +790,7 @@ func (g *genCtx) genDoc() {
 		// root type's turn comes; whatever the tool does then must not depend on how or
 		// where the file was named
 		ext := filepath.Ext(f.Base)
-		stem := strings.TrimSuffix(f.Base, ext)
+		stem := strings.TrimSuffix(strings.TrimSuffix(f.Base, ext), ".v1")
 		name := strings.ToUpper(stem[:1]) + stem[1:2] + strings.ToUpper(stem[2:3]) + strings.ToUpper(ext[1:2]) + ext[2:]
 		for _, e := range g.w.Opts.ResolveExt {
 			if e == ext {
@@ -853,6 +883,10 @@ func (g *genCtx) genDoc() {
 			props, _ := root.Get("properties")
 			root = root.Set("properties", append(props.(Obj), KV{nameClash.Prop, Obj{{"$ref", nameClash.Ref}}}))
 			f.Refs = append(f.Refs, *nameClash)
+		}
+		if listDef != "" {
+			props, _ := root.Get("properties")
+			root = root.Set("properties", append(props.(Obj), KV{f.Tag + "ls", Obj{{"$ref", "#/$defs/" + listDef}}}))
 		}
 		if len(twinRefs) > 0 {
 			// refer to the twins so that their names propagate into field types
@@ -953,7 +987,9 @@ func (g *genCtx) genMarkerObject(marker, fromDef string) Obj {
 			kws = append(kws, "anyOf")
 		}
 		ru.Combo = rapid.SampledFrom(kws).Draw(g.t, "combokw")
-		props = append(props, KV{ru.Prop, g.comboSchema(ru.Combo, ru.Ref)})
+		var cs Obj
+		cs, ru.CB = g.comboSchema(ru.Combo, ru.Ref)
+		props = append(props, KV{ru.Prop, cs})
 		g.f.Refs = append(g.f.Refs, ru)
 	}
 	if fromDef == "Shared" && g.feat.AnyOf {
@@ -1136,9 +1172,10 @@ func (g *genCtx) drawRef(fromDef string) (RefUse, bool) {
 // comboSchema: {kw: [ {$ref}, {object with a cb_ marker property} ]}. The merged
 // struct carries the target's marker (copied fields) and the cb_ marker, which
 // tells it apart from the target's own declaration.
-func (g *genCtx) comboSchema(kw, ref string) Obj {
+func (g *genCtx) comboSchema(kw, ref string) (Obj, string) {
 	g.nprop++
-	cb := Obj{{"type", "object"}, {"properties", Obj{{fmt.Sprintf("cb_%s_%d", g.f.Tag, g.nprop), Obj{{"type", "string"}}}}}}
+	name := fmt.Sprintf("cb_%s_%d", g.f.Tag, g.nprop)
+	cb := Obj{{"type", "object"}, {"properties", Obj{{name, Obj{{"type", "string"}}}}}}
 	br := []any{Obj{{"$ref", ref}}, cb}
 	if g.pct("cbfirst", 30) {
 		br = []any{cb, Obj{{"$ref", ref}}}
@@ -1147,7 +1184,7 @@ func (g *genCtx) comboSchema(kw, ref string) Obj {
 	if g.pct("combotype2", 40) {
 		o = append(o, KV{"type", "object"})
 	}
-	return append(o, KV{kw, br})
+	return append(o, KV{kw, br}), name
 }
 
 // mayRequire: a property that is a direct $ref is only made required in ReqCycle
@@ -1183,7 +1220,9 @@ func (g *genCtx) forcedRefs(props Obj) Obj {
 		if kw == "" {
 			props = append(props, KV{ru.Prop, Obj{{"$ref", ru.Ref}}})
 		} else {
-			props = append(props, KV{ru.Prop, g.comboSchema(kw, ru.Ref)})
+			var cs Obj
+			cs, ru.CB = g.comboSchema(kw, ru.Ref)
+			props = append(props, KV{ru.Prop, cs})
 		}
 		f.Refs = append(f.Refs, ru)
 	}
